@@ -53,6 +53,9 @@ RULE_TEXT = {
     "E4": "the closure built for Effect::Action dispatches the captured action once through the dispatcher it is given",
     "E5": "dispatch_task/dispatch_thunk submit the task on every path; a None pool slot is acceptable only if stop() waits for the reducer loop before emptying the slot",
     "E6": "the reducer thread never dispatches or enqueues into its own queue synchronously",
+    "E7": "on the reducer thread the effects vector is only pushed to, measured, shown to the hooks and drained by the hand-over loop",
+    "Q7": "the consumer's receive call returns crossbeam's recv() result directly, without buffering or re-ordering",
+    "LC3": "every on_unsubscribe call runs with the subscriber-list lock held in its calling context",
     "BU1": "each builder setter returns self and writes only its own option with values from its own parameter (with_* replaces, add_* pushes)",
     "BU2": "build() fails with InitError exactly on: no reducer and not without_reducer, empty name, capacity 0; otherwise calls the constructor",
     "BU3": "build passes every builder field to the matching constructor parameter, which reaches the cell, the lists, the queue (capacity, policy) and the pool name",
@@ -97,97 +100,144 @@ def rule_text(rule):
     return RULE_TEXT.get(rule, rule)
 
 
+def r(fn, only=None, drop=None, name=None):
+    """rule entry: (rule name, function, only-regex on instance keys, drop-regex)"""
+    return (name or fn.__name__.split("_")[0].upper(), fn, only, drop)
+
+
 def R(*fns):
-    return [(f.__name__.split("_")[0].upper(), f) for f in fns]
+    return [r(f) if callable(f) else f for f in fns]
 
 
-def _c06_ch(ctx, rep):
-    C.ch1_arm_purity(ctx, rep, arms=("DropOldest", "DropLatest"))
+BLOCK = r"BlockOnFull|blocking-arm|arm-present:BlockOnFull|paths-complete"
+PI3_REDUCE = lambda c, rep: P.pi3_full_forward_iteration(c, rep, which=("REDUCE",))
+PI3_NOTIFY = lambda c, rep: P.pi3_full_forward_iteration(c, rep, which=("NOTIFY",))
 
 
-def _c05_ch(ctx, rep):
+def _ch1_block(ctx, rep):
     C.ch1_arm_purity(ctx, rep, arms=("BlockOnFull",))
 
 
-def _c05_ch2(ctx, rep):
+def _ch1_drop(ctx, rep):
+    C.ch1_arm_purity(ctx, rep, arms=("DropOldest", "DropLatest"))
+
+
+def _ch2_block(ctx, rep):
     C.ch2_result_tells_enqueued(ctx, rep, arms=("BlockOnFull",))
-
-
-def _c14_su4_free(ctx, rep):
-    pass
 
 
 PROPS = {
     "C01": {
-        "rules": R(Q.q1_one_queue_one_consumer, Q.q2_dequeue_sites, Q.q6_sequential_consumer, P.pi1_one_pass_per_action, P.pi4_reducer_threading, P.pi5_write_back, P.pi6_action_identity, P.s1_single_writer, P.s2_initial_value, T.st1_stop_is_close_plus_join, T.st3_loop_exits, _c05_ch, _c05_ch2) + [("PI3", lambda c, r: P.pi3_full_forward_iteration(c, r, which=("REDUCE",)))],
-        "explanation": "Static decision on the compiler's MIR: single consumer of one queue (Q1,Q2,Q6); per received action exactly one chain pass that threads the chain variable through every registered reducer in order (PI1,PI3,PI4); the chain's result is written back unconditionally by the only writer of the state cell (PI5,S1,S2); stop() joins the consumer (ST1,ST3); the blocking arm never discards (CH1,CH2). Premises of the fold argument in DESIGN.md C01; behaviour is implied by these premises plus the trusted base, not executed.",
+        "rules": R(Q.q1_one_queue_one_consumer, Q.q2_dequeue_sites,
+                   r(Q.q6_sequential_consumer, only=r"event-graph|receive events|REDUCE"),
+                   r(P.pi1_one_pass_per_action, only=r"receive events|READ_STATE|WRITE_STATE|REDUCE"),
+                   r(PI3_REDUCE, name="PI3"), P.pi4_reducer_threading, P.pi5_write_back,
+                   r(P.pi6_action_identity, only=r"REDUCE"), P.s1_single_writer, P.s2_initial_value,
+                   T.st1_stop_is_close_plus_join, T.st3_loop_exits, r(_ch1_block, name="CH1"), r(_ch2_block, name="CH2"),
+                   r(M.mw_table, only=r"flags:before_reduce:(ContinueAction|BreakChain|Err)|MW2:.*before_reduce")),
+        "explanation": "Static decision on the compiler's MIR: single consumer of one queue (Q1,Q2,Q6); per received action exactly one chain pass that threads the chain variable through every registered reducer in order (PI1,PI3,PI4,PI6); only a before_reduce DoneAction keeps an action from the reducers (MW flags, MW2); the chain's result is written back unconditionally by the only writer of the state cell (PI5,S1,S2); stop() joins the consumer (ST1,ST3); the blocking arm never discards (CH1,CH2). Premises of the fold argument in DESIGN.md C01; behaviour follows from these premises plus the trusted base, nothing is executed.",
         "not_decided": ["FIFO/no-loss of crossbeam recv (trusted)"],
     },
     "C02": {
-        "rules": R(Q.q1_one_queue_one_consumer, Q.q2_dequeue_sites, Q.q5_synchronous_enqueue, Q.q6_sequential_consumer, Q.d1_same_store_dispatcher, C.ch0_never_disconnected, C.ch4_retry_identity, P.pi1_one_pass_per_action, T.st3_loop_exits) + [("PI3", lambda c, r: P.pi3_full_forward_iteration(c, r, which=("REDUCE",)))],
-        "explanation": "Static decision: a dispatch that returns Ok has already appended its action to the single FIFO queue on the caller's thread (Q5); only the consumer's head-recv and the DropOldest head-pop remove items and a bounced item is re-appended (Q2,CH4); the consumer handles items one at a time in receive order (Q1,Q6,PI1); dispatchers handed to thunks/middleware belong to the same store (D1). Order then follows from crossbeam's linearizable FIFO (trusted).",
+        "rules": R(Q.q1_one_queue_one_consumer, Q.q2_dequeue_sites, Q.q5_synchronous_enqueue,
+                   r(Q.q6_sequential_consumer, only=r"event-graph|receive events|REDUCE"),
+                   Q.d1_same_store_dispatcher, C.ch4_retry_identity, Q.q7_head_of_queue,
+                   r(P.pi1_one_pass_per_action, only=r"receive events|count:REDUCE|single-loop:REDUCE"),
+                   r(P.pi6_action_identity, only=r"REDUCE"), r(T.st3_loop_exits, only=r"continues-only-on-action|count:|floor:")),
+        "explanation": "Static decision: a dispatch that returns Ok has already appended its action to the single FIFO queue on the caller's thread (Q5); only the consumer's head-recv and the DropOldest head-pop remove items and a bounced item is re-appended (Q2,CH4); the consumer reduces exactly the item it just received, one at a time, in receive order (Q1,Q6,PI1,PI6,ST3); dispatchers handed to thunks/middleware belong to the same store (D1). Order then follows from crossbeam's linearizable FIFO (trusted).",
         "not_decided": ["linearizability / FIFO of the bounded channel (trusted)"],
     },
     "C03": {
-        "rules": R(P.pi1_one_pass_per_action, P.pi2_phase_order, P.pi6_action_identity, S.su1_mutators, P.n1_flag, P.n2_guard, P.n3_payload, M.mw_table, Q.q6_sequential_consumer, E.e6_reducer_never_enqueues) + [("PI3", lambda c, r: P.pi3_full_forward_iteration(c, r, which=("NOTIFY",)))],
-        "explanation": "Static decision: one notify decision per reduced action from the last reducer's answer (N1,N2), one forward pass over a snapshot of the registration-ordered list (SU1,PI3) with that action and the chain's result state (N3,PI6), suppressed only by a before_dispatch DoneAction (MW table); nothing on the reducer thread between reduce and notify can block on or fail through the store's own queue (E6).",
+        "rules": R(r(P.pi1_one_pass_per_action, only=r"receive events|single-loop:NOTIFY"),
+                   r(P.pi6_action_identity, only=r"NOTIFY"),
+                   r(S.su1_mutators, drop=r"removal:clear|floor:clear"), P.n1_flag, P.n2_guard, P.n3_payload,
+                   r(M.mw_table, only=r"(flow|flags):before_dispatch|arm-present:before_dispatch|MW2:.*before_dispatch|count:before_dispatch"),
+                   r(Q.q6_sequential_consumer, only=r"event-graph|receive events|NOTIFY"),
+                   E.e6_reducer_never_enqueues, r(PI3_NOTIFY, name="PI3")),
+        "explanation": "Static decision: one notify decision per reduced action from the last reducer's answer (N1,N2), one forward pass over a snapshot of the registration-ordered list (SU1,PI3) with that action and the chain's result state (N3,PI6), suppressed only by a before_dispatch DoneAction (MW table, MW2); nothing on the reducer thread between reduce and notify can block on or fail through the store's own queue (E6).",
         "not_decided": ["chains mixing Dispatch and Keep beyond 'last decides'"],
     },
     "C04": {
-        "rules": R(Q.q3_enqueue_under_sender_lock, Q.q4_close, C.ch2_result_tells_enqueued, S.su3_shutdown_release, T.st1_stop_is_close_plus_join, T.st2_closed_means_err, T.st3_loop_exits, T.st4_callbacks_live_in_the_loop, T.st5_idempotent, C.dr1_result_mapping),
-        "explanation": "Static decision: accepted actions are enqueued under the sender lock (Q3,CH2), close() empties the slot under that lock before Exit is enqueued (Q4), the loop ends only on Exit/disconnect and then releases every subscriber (ST3,SU3), stop() = close + join of the pool on every path without holding a store lock (ST1), closed => Err without effect (ST2), callbacks exist only inside the joined loop (ST4), second close/stop do nothing (ST5).",
+        "rules": R(Q.q3_enqueue_under_sender_lock, Q.q4_close,
+                   r(C.ch2_result_tells_enqueued, only=r"err-means-not-enqueued|ok-means-enqueued:BlockOnFull|floor"),
+                   S.su3_shutdown_release, T.st1_stop_is_close_plus_join, T.st2_closed_means_err, T.st3_loop_exits,
+                   T.st4_callbacks_live_in_the_loop, T.st5_idempotent, r(C.dr1_result_mapping, only=r"result-maps-Ok|result-ignored|floor"),
+                   r(X.ch_channeled_release, name="R2")),
+        "explanation": "Static decision: accepted actions are enqueued under the sender lock (Q3,CH2), close() empties the slot under that lock before Exit is enqueued (Q4), the loop ends only on Exit/disconnect and then releases every subscriber, which joins channeled threads after disconnecting them (ST3,SU3,R2), stop() = close + join of the pool on every path without holding a store lock (ST1), closed => Err without effect and Err only when nothing was enqueued (ST2,CH2,DR1), callbacks exist only inside the joined loop (ST4), second close/stop do nothing (ST5).",
         "not_decided": ["the 3 s timeout", "two racing shutdowns", "shutdown_join semantics (trusted)"],
     },
     "C05": {
-        "rules": [("CH1", _c05_ch), ("CH2", _c05_ch2)] + R(C.ch0_never_disconnected, C.ch5_capacity, Q.q2_dequeue_sites, B.b1_capacity_zero_rejected, Q.q5_synchronous_enqueue),
+        "rules": R(r(_ch1_block, name="CH1"), r(_ch2_block, name="CH2"), C.ch5_capacity,
+                   r(Q.q2_dequeue_sites, drop=r"consumer-recv-in-loop|receive sites in the consumer"),
+                   B.b1_capacity_zero_rejected, Q.q5_synchronous_enqueue),
         "explanation": "Static decision: the dispatch queue is bounded(capacity) with the configured value unmodified (CH5) and >= 1 (B1); the BlockOnFull arm consists of exactly one unbounded blocking send (CH1,CH2) executed synchronously by the caller (Q5); nothing but the consumer removes items (Q2). Waiting/wake-up timing is crossbeam's (trusted).",
         "not_decided": ["'resumes as soon as' / eventual progress (liveness of crossbeam)", "the capacity bound itself is crossbeam's guarantee"],
     },
     "C06": {
-        "rules": [("CH1", _c06_ch)] + R(C.ch0_never_disconnected, C.ch2_result_tells_enqueued, C.ch3_drop_accounting, C.ch4_retry_identity, Q.q3_enqueue_under_sender_lock, C.dr1_result_mapping, ME.me7_monotone),
-        "explanation": "Static decision by exhaustive path enumeration of the send wrapper: drop arms contain only non-blocking queue operations (CH1); Ok iff enqueued (CH2); each popped/rejected action is counted by exactly one action_dropped call (CH3, counter = one fetch_add, ME7); DropOldest pops the head only on Full and re-sends the bounced item (CH4) with producers serialised by the sender lock (Q3); Dispatcher::dispatch maps Err to Err (DR1).",
+        "rules": R(r(_ch1_drop, name="CH1"), C.ch0_never_disconnected, C.ch2_result_tells_enqueued, C.ch3_drop_accounting, C.ch4_retry_identity,
+                   r(Q.q3_enqueue_under_sender_lock, drop=r":StoreImpl::close$"), r(C.dr1_result_mapping, only=r"result-maps-Err|result-ignored|floor"),
+                   r(ME.me7_monotone, only=r"action_dropped")),
+        "explanation": "Static decision by exhaustive path enumeration of the send wrapper: drop arms contain only non-blocking queue operations (CH1); Ok iff enqueued (CH2); each popped/rejected action is counted by exactly one action_dropped call (CH3; the counter is one fetch_add, ME7); DropOldest pops the head only on Full and re-sends the bounced item (CH4) with producers serialised by the sender lock (Q3); Dispatcher::dispatch maps Err to Err (DR1).",
         "not_decided": ["which action a concurrent consumer makes the victim (left open by the statement)"],
         "exhaustive": True,
     },
     "C07": {
-        "rules": R(Q.q1_one_queue_one_consumer, Q.q6_sequential_consumer, P.pi1_one_pass_per_action, P.pi2_phase_order, P.pi3_full_forward_iteration, T.st4_callbacks_live_in_the_loop, S.su1_mutators, S.rg1_registration_order, M.mw_table),
-        "explanation": "Static decision: one reducer context (Q1,Q6,ST4); phases in the documented order with no reverse path in the inlined event graph (PI2); each group iterated fully, forward, from the collection read under its lock inside the pass (PI3) whose mutators preserve registration order (SU1,RG1); a hook loop is left early only by BreakChain (MW table); the next action's callbacks come after the next receive (PI1).",
+        "rules": R(Q.q1_one_queue_one_consumer, Q.q6_sequential_consumer,
+                   r(P.pi1_one_pass_per_action, only=r"receive events|single-loop"),
+                   r(P.pi2_phase_order, only=r"order:(HOOK|REDUCE|NOTIFY)[^<]*<(HOOK|REDUCE|NOTIFY)"), P.pi3_full_forward_iteration, T.st4_callbacks_live_in_the_loop,
+                   r(S.su1_mutators, drop=r"removal:clear|floor:clear"), S.rg1_registration_order,
+                   r(M.mw_table, only=r"flow:.*:(ContinueAction|DoneAction|Err)|count:")),
+        "explanation": "Static decision: one reducer context (Q1,Q6,ST4); phases in the documented order with no reverse path in the inlined event graph (PI2); each group iterated fully, forward, from the collection read under its lock inside the pass (PI3) whose mutators preserve registration order (SU1,RG1); a hook loop goes on to the next middleware after Continue/Done/Err (MW flow); the next action's callbacks come after the next receive (PI1).",
         "not_decided": ["run-time thread identity (decided as: no callback site outside the reducer thread's synchronous call tree)"],
     },
     "C08": {
-        "rules": R(P.s1_single_writer, P.s2_initial_value, P.pi5_write_back, Q.q1_one_queue_one_consumer, P.pb1_publish_before_notify, P.pi1_one_pass_per_action),
-        "explanation": "Static decision: the state cell is assigned only whole chain results by one thread in reduce order (S1,PI5,Q1,PI1), readers clone it under its lock (S1), it starts as the configured initial state (S2), and the write-back dominates every subscriber/effect/hook of the same pass (PB1).",
+        "rules": R(P.s1_single_writer, P.s2_initial_value, r(P.pi5_write_back, only=r"written-value-is-chain-result|floor"),
+                   Q.q1_one_queue_one_consumer, r(P.pb1_publish_before_notify, only=r"NOTIFY|floor"),
+                   r(P.pi1_one_pass_per_action, only=r"receive events|at-most-once-per-pass:WRITE_STATE|count:WRITE_STATE")),
+        "explanation": "Static decision: the state cell is assigned only whole chain results by one thread in reduce order (S1,PI5,Q1,PI1), readers clone it under its lock (S1), it starts as the configured initial state (S2), and the write-back lies on every path from the receive to a subscriber call of the same pass (PB1).",
         "not_decided": [],
     },
     "C09": {
-        "rules": R(S.su1_mutators, S.su2_unsubscribe, S.su3_shutdown_release, S.su4_delivery_atomic_with_membership, S.lc1_unsubscribe_sites, X.ch_channeled_release, P.pi1_one_pass_per_action) + [("PI3", lambda c, r: P.pi3_full_forward_iteration(c, r, which=("NOTIFY",)))],
-        "explanation": "Static decision: unsubscribe removes exactly the identical element of its own store's list under the list lock and releases it once (SU1,SU2); whatever is still listed at shutdown is released once and the list cleared in the same critical section on every path to the end of the reducer thread (SU3); no third release path (LC1); every registered element is visited on each notifying pass (PI3); channeled release is idempotent (R2). Delivery atomic with membership (SU4) is a known finding.",
+        "rules": R(r(S.su1_mutators, drop=r"append:|floor:push"), S.su2_unsubscribe, S.su3_shutdown_release, S.su4_delivery_atomic_with_membership,
+                   S.lc1_unsubscribe_sites, r(X.ch_channeled_release, name="R2"), r(PI3_NOTIFY, name="PI3")),
+        "explanation": "Static decision: unsubscribe removes exactly the identical element of its own store's list under the list lock and releases it once (SU1,SU2); whatever is still listed at shutdown is released once and the list cleared in the same critical section on every path to the end of the reducer thread (SU3); no third release path (LC1); every listed element is visited on each notifying pass (PI3); channeled release is idempotent (R2). Delivery atomic with membership (SU4) is a known finding.",
         "not_decided": [],
     },
     "C10": {
-        "rules": R(X.ch_channeled, C.ch0_never_disconnected, C.ch1_arm_purity, C.ch2_result_tells_enqueued, C.ch4_retry_identity, T.st4_callbacks_live_in_the_loop),
-        "explanation": "Static decision: the user's subscriber lives only in the spawned thread's delivery loop (R1,R4,ST4); the forwarder enqueues each notification once, unmodified, under its slot lock and never after release (R3); the channel wrapper never blocks under a drop policy and delivers the newest under DropOldest (CH1,CH2,CH4); release drops the sender and then joins, from both unsubscribe and shutdown (R2); defaults are DEFAULT_CAPACITY/BlockOnFull (R5).",
+        "rules": R(X.ch_channeled, C.ch1_arm_purity, C.ch2_result_tells_enqueued, C.ch4_retry_identity,
+                   r(T.st4_callbacks_live_in_the_loop, only=r"channeled|floor"),
+                   S.lc3_release_under_list_lock,
+                   r(S.su3_shutdown_release, only=r"every-exit-releases|floor:clear")),
+        "explanation": "Static decision: the user's subscriber lives only in the spawned thread's delivery loop (R1,R4,ST4); the forwarder enqueues each notification once, unmodified, under its slot lock and never after release (R3); the channel wrapper never blocks under a drop policy and delivers the newest under DropOldest (CH1,CH2,CH4); release drops the sender, enqueues nothing, then joins - reached atomically with removal from unsubscribe and from the shutdown release (R2,SU2,SU3); defaults are DEFAULT_CAPACITY/BlockOnFull (R5).",
         "not_decided": ["run-time thread identity", "timing"],
     },
     "C11": {
-        "rules": R(Q.d1_same_store_dispatcher, Q.q3_enqueue_under_sender_lock, T.st1_stop_is_close_plus_join, E.e1_collect, E.e2_drain, E.e3_never_inline, E.e4_effect_action, E.e5_total_handover, E.e6_reducer_never_enqueues, M.mw_table),
+        "rules": R(Q.d1_same_store_dispatcher, T.st1_stop_is_close_plus_join, E.e1_collect, E.e2_drain, E.e3_never_inline, E.e4_effect_action,
+                   E.e5_total_handover, E.e6_reducer_never_enqueues, E.e7_vector_untouched_between_hooks_and_drain,
+                   r(M.mw_table, only=r"store-leaves-effects-alone|count:before_effect")),
         "explanation": "Static decision: every returned effect is collected into one per-pass vector (E1), the vector the hooks saw is drained completely with exactly one hand-over per variant (E2,MW3) and the store itself never removes effects (MW table), payloads run only inside closures submitted to the pool with no store lock held (E3), Effect::Action re-enters through the ordinary dispatch path on a worker (E4,E6) with the same store's dispatcher (D1), stop() joins the pool (ST1). Total hand-over after stop() took the pool (E5) is a known finding.",
         "not_decided": ["wall-clock non-interference of slow effects"],
     },
     "C12": {
-        "rules": R(P.pi6_action_identity, P.pi2_phase_order, M.mw_table, P.mw1_hook_state_args, E.e1_collect, E.e2_drain, M.mw4_counter, Q.d1_same_store_dispatcher, P.pi5_write_back),
-        "explanation": "Static decision by exhaustive path enumeration of one iteration of each of the three hook loops: 3 hooks x {Continue, Done, Break, Err} have exactly the documented control flow, flag writes and on_error calls (MW), flags start true and guard their phase (MW2), hook arguments are the documented states/action/dispatcher (MW1,PI6,D1), the write-back is independent of the verdicts (PI5,PI2), and the drained effects vector is the one the hooks saw, untouched by the store (MW3).",
+        "rules": R(r(P.pi6_action_identity, only=r"HOOK"), M.mw_table, P.mw1_hook_state_args,
+                   r(E.e2_drain, only=r"MW3:|drain-until-empty|variant-covered|count:"), E.e7_vector_untouched_between_hooks_and_drain,
+                   r(P.s1_single_writer, only=r"writers of the state cell|writer-is-reducer-thread|no-other-mutable-access"),
+                   r(P.pi2_phase_order, only=r"order:(HOOK:before_reduce<REDUCE|REDUCE<HOOK:before_effect|HOOK:before_effect<HANDOVER|HOOK:before_dispatch<NOTIFY)")),
+        "explanation": "Static decision by exhaustive path enumeration of one iteration of each of the three hook loops: 3 hooks x {Continue, Done, Break, Err} have exactly the documented control flow, flag writes and on_error calls (MW), flags start true and guard their phase (MW2), hook arguments are the documented states and action (MW1,PI6), the new state is written once, independent of the verdicts and before before_dispatch (S1,PI5,PI2), and the drained effects vector is the one the hooks saw, untouched by the store (MW3,E2).",
         "not_decided": ["whether a vetoed action still notifies (unspecified)"],
         "exhaustive": True,
     },
     "C13": {
-        "rules": R(DL.l1_lock_order, DL.l2_wait_for, T.st1_stop_is_close_plus_join, E.e6_reducer_never_enqueues),
-        "explanation": "Static deadlock analysis on context-sensitive inlined call graphs rooted at every entry point of every thread role (client API, reducer thread, pool jobs, channeled thread, iterator consumer), with class-hierarchy resolution of dyn calls into the crate's impls and the property's own model of user callbacks: the lock-order graph is acyclic without self edges (L1); no blocking send/recv/join is performed while holding a lock the unblocking party takes, no role blocks on a channel only it consumes, joined threads are disconnected first (L2, ST1, E6).",
+        "rules": R(DL.l1_lock_order, DL.l2_wait_for, E.e6_reducer_never_enqueues),
+        "explanation": "Static deadlock analysis on context-sensitive inlined call graphs rooted at every entry point of every thread role (client API, reducer thread, pool jobs, channeled thread, iterator consumer), with class-hierarchy resolution of dyn calls into the crate's impls and the property's own model of user callbacks: the lock-order graph is acyclic without self edges (L1); no blocking send/recv/join is performed while holding a lock the unblocking party takes, no role blocks on a channel only it consumes, joined threads are disconnected first (L2, E6).",
         "not_decided": ["progress inside crossbeam/rusty_pool/std", "a client thread playing two roles itself", "the 3 s timeout masking a hang"],
     },
     "C14": {
-        "rules": R(X.it_iterator, P.n3_payload, P.n2_guard, S.su3_shutdown_release, P.pi2_phase_order, _c05_ch, _c05_ch2) + [("PI3", lambda c, r: P.pi3_full_forward_iteration(c, r, which=("NOTIFY",)))],
-        "explanation": "Static decision: iter() registers a direct subscriber that forwards each notification once into a capacity-1 blocking (lossless) channel (IT1,IT2,CH1,CH2) fed by the ordinary notify phase (N2,N3,PI3); Exit is sent by the shutdown release, which every path to the end of the reducer thread passes after the last notification (SU3,PI2); next() passes pairs through and is fused, drop detaches (IT3,IT4; exhaustive).",
+        "rules": R(X.it_iterator, P.n3_payload, P.n2_guard,
+                   r(S.su3_shutdown_release, only=r"every-exit-releases|release-after-loop|floor|plain-forward|no-early-exit|in-loop|receiver-from"),
+                   r(_ch1_block, name="CH1"), r(_ch2_block, name="CH2"), r(PI3_NOTIFY, name="PI3"),
+                   r(P.pi6_action_identity, only=r"NOTIFY")),
+        "explanation": "Static decision: iter() registers a direct subscriber that forwards each notification once into a capacity-1 blocking (lossless) channel (IT1,IT2,CH1,CH2) fed by the ordinary notify phase (N2,N3,PI3,PI6); Exit is sent by the shutdown release, which every path to the end of the reducer thread passes after the last notification (SU3); next() passes pairs through and is fused, drop detaches (IT3,IT4; exhaustive).",
         "not_decided": ["blocking behaviour of dropping an iterator with an unread item (C13's finding)", "timing"],
         "exhaustive": True,
     },
@@ -203,18 +253,21 @@ PROPS = {
         "exhaustive": True,
     },
     "C17": {
-        "rules": R(B.bu1_write_sets, B.bu2_validation, B.bu3_pass_through, B.bu4_constructors, C.ch5_capacity, S.rg1_registration_order),
+        "rules": R(B.bu1_write_sets, B.bu2_validation, B.bu3_pass_through, B.bu4_constructors, C.ch5_capacity,
+                   r(S.rg1_registration_order, only=r"constructor-stores-given")),
         "explanation": "Decided on the builder's methods by path enumeration: each setter returns self and writes only its own option from its own parameter (BU1); build() fails exactly on the three documented causes (BU2, exhaustive over 7 paths); every field reaches the matching constructor parameter and from there the cell, lists, queue capacity/policy and pool name unmodified (BU3,CH5,RG1); documented defaults (BU4).",
         "not_decided": [],
         "exhaustive": True,
     },
     "C18": {
-        "rules": R(ME.me1_received, ME.me2_drop_feeders, C.ch3_drop_accounting, ME.me3_reduced, ME.me4_effect_issued, M.mw4_counter, ME.me6_errors, ME.me7_monotone, ME.me8_snapshot, ME.me9_one_metrics_object, E.e1_collect),
-        "explanation": "Static pairing rules: one counter call per event at the place that makes the balance equations hold (ME1,CH3,ME3,ME4,MW4,ME6), counters only ever fetch_add'ed, each method its own counter (ME7), snapshot fields map 1:1 (ME8), one metrics object per store shared with the dispatch queue only (ME9, ME2). ME2 (a second feeder of action_dropped) is a known finding.",
+        "rules": R(ME.me1_received, ME.me2_drop_feeders, C.ch3_drop_accounting, ME.me3_reduced, ME.me4_effect_issued, M.mw4_counter, ME.me6_errors,
+                   ME.me7_monotone, ME.me8_snapshot, ME.me9_one_metrics_object, E.e1_collect),
+        "explanation": "Static pairing rules: one counter call per event at the place that makes the balance equations hold (ME1,CH3,ME3,ME4,MW4,ME6,E1), counters only ever fetch_add'ed, each method its own counter (ME7), snapshot fields map 1:1 (ME8), one metrics object per store shared with the dispatch queue only (ME9, ME2). ME2 (a second feeder of action_dropped) is a known finding.",
         "not_decided": ["time-valued metrics", "remaining_queue*"],
     },
     "C19": {
-        "rules": R(IN.in1_no_process_wide_state, IN.in2_fresh_resources, IN.in3_handles_stay_home, S.su2_unsubscribe, Q.d1_same_store_dispatcher, ME.me9_one_metrics_object),
+        "rules": R(IN.in1_no_process_wide_state, IN.in2_fresh_resources, IN.in3_handles_stay_home,
+                   Q.d1_same_store_dispatcher, ME.me9_one_metrics_object),
         "explanation": "Non-interference by separation, all static: no static/thread_local/unsafe/process-global API, third-party callees instance-scoped (IN1); every per-store resource is created in the constructor call (IN2,ME9); handles capture their own store's list, dispatchers wrap their own store, wrappers own their own channel, the name is only formatted (IN3,SU2,D1).",
         "not_decided": ["global state inside the dependencies", "CPU contention"],
     },
